@@ -185,7 +185,7 @@ theorem wf_l0 {f : Fields} (hwf : wf f = true) (hl : f.level = 0) :
   simp only [wf, Bool.and_eq_true, decide_eq_true_eq, List.all_eq_true, hl] at hwf
   obtain ⟨-, hx⟩ := hwf
   simp at hx
-  exact ⟨hx.1.1.1, hx.1.1.2⟩
+  exact ⟨hx.1.1.1.1, hx.1.1.1.2⟩
 
 theorem splitFilename_raw (h : Hdr) : (splitFilename h).raw = h.raw := by
   unfold splitFilename; split
@@ -368,7 +368,7 @@ theorem wf_l1 {f : Fields} (hwf : wf f = true) (hl : f.level = 1) :
   simp only [wf, Bool.and_eq_true, decide_eq_true_eq, List.all_eq_true, hl] at hwf
   obtain ⟨-, hx⟩ := hwf
   simp at hx
-  exact ⟨hx.1.1.1, hx.1.1.2, hx.1.2⟩
+  exact ⟨hx.1.1.1.1, hx.1.1.1.2, hx.1.1.2⟩
 
 theorem level0_l1 (mk : Nat → Nat) (f : Fields) (hwf : wf f = true) (hl : f.level = 1) (data full : Bytes)
     (hfull : full = encode f ++ data) :
